@@ -10,6 +10,7 @@ TLen == (TLCGet("stats").traces % MaxSteps) + 1
 GenNext ==
   \/ \E f \in [Keys -> KeyStates] : Setup(f)
   \/ (Len(prog) < TLen /\ \E s \in Steps : AddStep(s))
+  \/ (Len(prog) < TLen /\ \E s \in {s \in Steps : s.op \in {"emit", "xfer", "use", "get"}} : AddStep(s))     \* rarer kinds of steps twice
   \/ (Len(prog) >= TLen /\ \E a \in Amts : PreExecA(a))
   \/ \E n \in Keys : Interpose(n)
   \/ \E k \in TamperKinds : PickKind(k)
